@@ -12,8 +12,9 @@ from . import core
 from .core import mix, VERIF
 
 KNOWN_PATH = os.path.join(VERIF, "known_findings.json")
-REPLAY_DIR = os.path.join(VERIF, "replays")
-EVID_DIR = os.path.join(VERIF, "evidence")
+_OUT = os.environ.get("VERIF_OUT_DIR") or VERIF     # VERIF_OUT_DIR: experiments must not overwrite the committed evidence
+REPLAY_DIR = os.path.join(_OUT, "replays")
+EVID_DIR = os.path.join(_OUT, "evidence")
 
 
 class Outcome:
@@ -48,6 +49,10 @@ class Outcome:
     def account(self, r):
         """Book-keeping for one simulated run result."""
         self.runs += 1
+        if r.rc == 99 and not r.sig:
+            # the simulator met something it does not model (SIM-UNSUPPORTED ...) or failed internally: a problem of the
+            # machinery (exit 2), never a verdict about the property
+            self.error = "simulator gave up (rc=99): %s" % "; ".join([l for l in r.trace if l.startswith("E ")] + [l for l in r.stderr.split("\n") if l.startswith("VSIM:")])
         if r.trace:
             self.steps += r.steps()
             self.hashes.append(r.trace_hash)
@@ -77,6 +82,32 @@ class Outcome:
         return self.__dict__
 
 
+def run_scenario(prop, scn, wd):
+    """prop.execute, but a scenario whose runs see absolute paths (compile-database mode: cppcheck then reports and transfers
+    absolute file names, whose length decides message sizes and chunk boundaries) always executes at the same absolute path,
+    derived from its content - whichever process runs it: batch worker, determinism gate, shrinker or fresh-process replay."""
+    if not scn.get("project"):
+        return prop.execute(scn, wd)
+    import fcntl, hashlib
+    h = hashlib.sha256(json.dumps(scn, sort_keys=True).encode()).hexdigest()[:16]
+    base = os.path.join(os.environ.get("TMPDIR", "/tmp"), "verif-fixed")
+    os.makedirs(base, exist_ok=True)
+    fwd = os.path.join(base, prop.ID + "-" + h)
+    with open(fwd + ".lock", "w") as lock:
+        fcntl.flock(lock, fcntl.LOCK_EX)
+        core.rmtree(fwd)
+        os.makedirs(fwd)
+        try:
+            return prop.execute(scn, fwd)
+        finally:
+            core.rmtree(fwd)
+            for pth, rm in ((fwd + ".lock", os.unlink), (base, os.rmdir)):
+                try:
+                    rm(pth)
+                except OSError:
+                    pass
+
+
 def _worker(job):
     prop, seed, idx, tier, scratch = job
     wd = os.path.join(scratch, "s%06d" % idx)
@@ -84,7 +115,7 @@ def _worker(job):
         sseed = mix(seed, prop.ID, idx)
         scn = prop.generate(sseed, tier, idx)
         os.makedirs(wd, exist_ok=True)
-        out = prop.execute(scn, wd)
+        out = run_scenario(prop, scn, wd)
         res = out.to_json()
         res["idx"] = idx
         if out.violations or out.error:
@@ -103,7 +134,7 @@ def execute_fresh(prop, scn, scratch, tag):
     core.rmtree(wd)
     os.makedirs(wd, exist_ok=True)
     try:
-        return prop.execute(scn, wd)
+        return run_scenario(prop, scn, wd)
     finally:
         core.rmtree(wd)
 
@@ -266,6 +297,8 @@ def _batch(prop, seed, tier, scratch, t0):
                 print("scenario %d: violation %s/%s did not reproduce identically (hashes equal: %s)" % (idx, cls, sig, out2.run_hashes == rh))
                 for l in v["detail"][:10]:
                     print("    " + l)
+                print("    violations on re-run: %s" % [(x["cls"], x["sig"]) for x in out2.violations][:6])
+                print("    first differing run: %s (of %d / %d runs)" % (next((i for i, (a, b) in enumerate(zip(rh, out2.run_hashes)) if a != b), None), len(rh), len(out2.run_hashes)))
                 core.harness_error("HARNESS-NONDETERMINISM for property %s" % prop.ID)
             # known finding by raw signature? then skip the expensive minimisation
             kf = _match_known(known, cls, sig)
